@@ -330,6 +330,9 @@ package csrf
 // code (reflect model, deps/mw_C16.spec) - so the answer is false for EVERY extractor, including FromCookie(name):
 // the double-submit comparison with the CSRF cookie is never skipped. (typeis(x, FromCookie): "the dynamic type of x is
 // the signature of the declared function FromCookie".)
+// ASSUMED (this package only; rationale in /verif/contracts/deps/mw_C16.spec, package reflect): func values with the same code
+// pointer have the same dynamic type - csrf hands only func values of unnamed signature types to reflect.
+//@ smt (assert (forall ((i Int) (j Int)) (! (=> (= (codeOf i) (codeOf j)) (= (tagof i) (tagof j))) :pattern ((codeOf i) (codeOf j)))))
 //@ func isFromCookie
 //@   pure
 //@   requires argument-is-not-of-the-factory-type: extractor != nil && !typeis(extractor, FromCookie)
